@@ -30,6 +30,15 @@ def run(ctx):
     for st in ctx.dump_states(g):
         cases.append({'mode': 'codec', 'str': st['str'], 'verdict': st['verdict'], 'L': L,
                       'nconc': 6 if quick else 40, 'conc': ctx.rng.randrange(10 ** 6)})
+    # 2b. strings of the real length: canonical shapes with one position replaced by every class; the driver puts every
+    #     byte value of that class there (16 positions x 256 byte values per shape and seed)
+    gp = ctx.tlc_must_pass('IDs', 'IDs.CodecPoint.cfg', timeout=600, dump=True, workers=2)
+    npoint = 0
+    for st in ctx.dump_states(gp):
+        cases.append({'mode': 'codec', 'point': True, 'str': st['str'], 'verdict': st['verdict'], 'L': 16,
+                      'nconc': 1 if quick else 6, 'conc': ctx.rng.randrange(10 ** 6)})
+        npoint += 1
+    ctx.extra_cov['codec_point_states'] = npoint
     ctx.exhaustive = True
     binary = ctx.go_build('ids')
     res, lines = ctx.replay(binary, cases, timeout=1200, procs=min(vlib.NCPU, 4), env_extra={'GOMAXPROCS': '2'})
@@ -54,6 +63,10 @@ def run(ctx):
             # bulk trace: free-running callers, many calls (real contention on the CAS), summarised per time value
             gens = [{'kind': kinds[j % 3], 'machine': ctx.rng.choice([0, 1, 5, 511, 1022, 1023]), 'callers': 4,
                      'calls': 50000 if quick else 250000, 'pause': False, 'sync': False, 'bulk': True} for j in range(3)]
+            # the state is ahead of the wall clock by more than a second (what a backward clock step leaves behind) and the
+            # clock then passes milliseconds for which ids were already handed out (seed C31-1)
+            gens += [{'kind': kinds[j % 3], 'machine': ctx.rng.choice([0, 5, 1023]), 'callers': 4, 'calls': 2000,
+                      'pause': False, 'sync': False, 'bulk': True, 'ahead': ctx.rng.choice([1200, 2000, 5000])} for j in range(2 if quick else 6)]
         p = ctx.tmp(f'traces/t{k}.ndjson')
         paths.append(p)
         rec_cases.append({'mode': 'record', 'out': p, 'gens': gens, 'conc': k})
@@ -87,7 +100,8 @@ def run(ctx):
                                     'result': {'msg': f'ids recorded from the real generator are rejected by TraceIDs at line {hw}: {around} '
                                                       f'(violated={tr.violated})', 'patterns': [], 'step': hw}})
     ctx.extra_cov.update({'generator_traces': len(paths), 'generator_traces_accepted': accepted, 'generated_ids_validated': total_ids,
-                          'sequence_rollovers_in_traces': rollovers})
+                          'sequence_rollovers_in_traces': rollovers,
+                          'max_state_ahead_of_clock_ms': max(int((x.get('extra') or {}).get('max_state_ahead_ms', 0)) for x in rres)})
     ctx.rule = ('codec: every abstract string (length 0..MaxLen over the classes 0 / 1-9 / a-f / A-F / other; abstract length L = 16 '
                 'characters) under N seeded concretisations, non-trivial = abstract length L-1..L+1 (15/16/17 characters); '
                 'generators: ids of G generators x C concurrent callers x K calls per trace, one line per id, plus one bulk trace of 3 generators x 4 callers x 50 000 (quick) calls summarised per time value (pkg/snowflake.Generator, '
@@ -97,6 +111,9 @@ def run(ctx):
         'the machine bits); TLC shows the aliasing on the model when the assumption is dropped (IDs.Lead_H11.cfg), it cannot be forced '
         'on the real generator without a hook on now()',
         'the order in which ids were installed is recovered by sorting on (time, sequence): justified by StateMonotone (checked by TLC)',
+        'clock-step-back scenario: now() cannot be replaced, so the generator state word is positioned ahead of the clock through an '
+        'unsafe pointer to the first field of snowflake.Generator (verified at run time by the first id taken), ids are really taken '
+        'there, and callers continue until the wall clock has passed those milliseconds',
         'the round trip over all 2^64 values is sampled by concretisation of the canonical strings, not enumerated',
     ]
 
